@@ -586,7 +586,8 @@ def _estimator_component(draw):
     elif kind == "AnnotatorLogisticRegression":
         cfg = {"max_iter": draw(st.sampled_from([2, 3])),
                "n_annotators": draw(st.sampled_from([None, 2])),
-               "solver_dict": draw(st.sampled_from([None, {"maxiter": 5}])),
+               "solver_dict": draw(st.sampled_from(
+                   [None, {"maxiter": 5}, {"disp": False}, {}])),
                "classes_given": draw(st.booleans())}
     elif kind in ("NICKernelRegressor", "NadarayaWatsonRegressor"):
         cfg = {"metric_dict": draw(st.sampled_from(_MD_NIC))}
@@ -653,9 +654,9 @@ def _estimator_case(draw):
     probe = draw(_probe(dss, d))
     nds = len(dss)
     pf = _offers_partial_fit(comp)
-    wmodes = ["none", "none", "all"] if _weights_ok(comp) else ["none"]
-    if kind == "SlidingWindowClassifier":
-        wmodes = wmodes + ["mixed"]
+    # "mixed": some calls of a history pass sample_weight, others do not
+    wmodes = (["none", "none", "all", "mixed"] if _weights_ok(comp)
+              else ["none"])
     weights = draw(st.sampled_from(wmodes))
     dsi = st.integers(0, nds - 1)
     fit = st.fixed_dictionaries({"op": st.just("fit"), "ds": dsi,
